@@ -3,10 +3,13 @@
 Streams
   sort       helpers.sorted_definitions(set(defs)) on real classes.Name objects (synthetic inner
              names, shuffled, with __eq__-equal duplicates) vs Model.Determinism.inferResult
-  machine    random query bodies (nested try/finally blocks, exceptions anywhere) executed with the
-             real primitives (InferenceState.reset_recursion_limitations, detector push/pop,
-             _limit_value_infers, AbstractContext.predefine_names, dynamic_params._avoid_recursions)
-             on one state object vs Model.Determinism.session
+  machine    random query bodies (nested try/finally blocks, exceptions anywhere, dynamic parameter
+             lookups that re-enter themselves so that the recursion guard blocks, call-site searches)
+             executed with the real primitives (InferenceState.reset_recursion_limitations, detector
+             push/pop, _limit_value_infers, AbstractContext.predefine_names,
+             dynamic_params._avoid_recursions, the loop of dynamic_params._search_function_arguments)
+             on one state object vs Model.Determinism.session; dynamic_params_depth must be 0 after
+             every query
   order      direct oracle, in-process: the value set / name set that Script.infer / goto turn into
              Name objects is handed over in every (sampled) iteration order; the ordered result
              lists must be equal (goto: as sets)
@@ -15,19 +18,31 @@ Streams
   session    direct oracle: permutations / repetitions of up to 8 queries on one Script (including
              out-of-range positions that raise ValueError); every answer must equal the answer of a
              fresh Script; after every query the per-query state is checked on the real object
+  dynsession the same oracle on programs whose answers come from the dynamic parameter search
+             (functions with 11..16 call sites with distinct argument classes, self- / mutually
+             recursive functions, helper calls; gen/c16_dynparams.py, corpus/C16): every ordered
+             pair of parameter queries, random longer sessions
   fault      an exception is injected at the k-th inference step of a query; afterwards all
              switches must have their defaults and the recursion stacks must be empty
+
+Controlled environment: all in-process streams and every subprocess use a parso pickle cache
+directory private to this run (PrivateCache) - the shared ~/.cache/jedi is written non-atomically and
+a concurrent reader gets EOFError out of jedi (reproduced; that race is parso's, not C16's).
+Answers that are internal exceptions on BOTH sides are counted, not compared (C01's statement).
 """
 import itertools
 import json
 import os
+import shutil
 import subprocess
 import sys
+import tempfile
 from pathlib import Path
 
 import common
 from common import short
 from gen import c15_programs as P
+from gen import c16_dynparams as DP
 from props import c15 as C15
 
 MODELS = ['Recursion', 'Determinism']
@@ -42,6 +57,12 @@ MANIFEST = dict(
          'the same set (goto_set_invariant); after any sequence of queries with any outcomes the switches '
          'have their defaults and every query starts with fresh recursion bookkeeping '
          '(query_boundary_inv_partial; witness: inferred_element_counts is not reset, reproduced on jedi); '
+         'this includes dynamic_params_depth = 0 and an empty statement stack for any outcome of '
+         'dynamic_params._avoid_recursions (allowed, blocked by the recursion guard, exception) because the '
+         'translator finds `+= 1` inside `if allowed:` right before the try whose finally has `-= 1` '
+         '(dyn_bracket_transcribed; dyn_depth_zero_at_every_boundary; top_level_search_sees_all_sites; '
+         'kernel-checked witness for the increment moved before the with block: 12 call sites fresh, 10 after a '
+         'self-recursive lookup); '
          'on acyclic dependency graphs the memoised evaluator answers independently of earlier queries '
          '(memo_order_independent_acyclic; 2-cycle witness). Tie: translator + correspondence on real Name '
          'objects and real primitives + direct oracles (hash seeds, iteration orders, query permutations).',
@@ -99,6 +120,133 @@ def classify(a, b):
     if sorted(map(json.dumps, ka)) == sorted(map(json.dumps, kb)):
         return 'order differs'
     return 'different definitions'
+
+
+# ----------------------------------------------------------------- controlled environment
+
+class PrivateCache:
+    """Points jedi.settings.cache_directory (parso's pickle cache of parsed files) at a directory of
+    this run only.  The shared ~/.cache/jedi is written non-atomically by parso
+    (`open(path, 'wb'); pickle.dump`) and read without a lock (`_load_from_file_system` only catches
+    FileNotFoundError): while one process writes the pickle of e.g. os.py, another one that imports
+    os gets `EOFError: Ran out of input` out of jedi.  That is a race between processes on a cold
+    cache (reproduced: 3 concurrent cold processes, 5 of 15 rounds), not a property of the query,
+    so no process of this check shares its cache directory with a concurrently running one."""
+
+    def __enter__(self):
+        import jedi.settings
+        self.settings = jedi.settings
+        self.old = jedi.settings.cache_directory
+        self.dir = tempfile.mkdtemp(prefix='verif-c16-cache-', dir=os.environ.get('VERIF_SCRATCH') or None)
+        jedi.settings.cache_directory = os.path.join(self.dir, 'parent')
+        return self
+
+    def child_dir(self, tag):
+        """a private copy of the parent's (by now warm) cache: every child starts from the same files"""
+        d = os.path.join(self.dir, 'child-%s' % tag)
+        src = os.path.join(self.dir, 'parent')
+        if os.path.isdir(src):
+            shutil.copytree(src, d)
+        else:
+            os.makedirs(d)
+        return d
+
+    def __exit__(self, *a):
+        self.settings.cache_directory = self.old
+        shutil.rmtree(self.dir, ignore_errors=True)
+
+
+class _Allowed:
+    """wraps the context manager recursion.execution_allowed(...) as used by dynamic_params"""
+    def __init__(self, cm, state):
+        self.cm, self.state = cm, state
+
+    def __enter__(self):
+        allowed = self.cm.__enter__()
+        if not allowed:
+            d = self.state.__dict__
+            d['_verif_dyn_blocked'] = d.get('_verif_dyn_blocked', 0) + 1
+        return allowed
+
+    def __exit__(self, *a):
+        return self.cm.__exit__(*a)
+
+
+class _RecursionProxy:
+    """stands for the module jedi.inference.recursion inside dynamic_params only"""
+    def __init__(self, real):
+        self._real = real
+
+    def __getattr__(self, name):
+        return getattr(self._real, name)
+
+    def execution_allowed(self, inference_state, node):
+        return _Allowed(self._real.execution_allowed(inference_state, node), inference_state)
+
+
+class SearchHook:
+    """observes (without changing) the dynamic parameter search of every InferenceState: at which
+    dynamic_params_depth the memoised call-site search dynamic_params._search_function_arguments is
+    asked, and how often the recursion guard of dynamic_params._avoid_recursions blocks a re-entered
+    lookup.  Only used to name the root cause of a difference found by the oracle."""
+
+    def __enter__(self):
+        from jedi.inference import dynamic_params
+        self.mod = dynamic_params
+        self.old = dynamic_params._search_function_arguments
+        self.old_rec = dynamic_params.recursion
+        old = self.old
+
+        def search(module_context, funcdef, string_name, *more):
+            st = module_context.inference_state
+            st.__dict__.setdefault('_verif_search_depths', []).append((string_name, st.dynamic_params_depth))
+            return old(module_context, funcdef, string_name, *more)
+        dynamic_params._search_function_arguments = search
+        dynamic_params.recursion = _RecursionProxy(self.old_rec)
+        return self
+
+    @staticmethod
+    def depths(script):
+        return [d for _, d in script._inference_state.__dict__.get('_verif_search_depths', [])]
+
+    @staticmethod
+    def blocked(script):
+        return script._inference_state.__dict__.get('_verif_dyn_blocked', 0)
+
+    def __exit__(self, *a):
+        self.mod._search_function_arguments = self.old
+        self.mod.recursion = self.old_rec
+
+
+LEAK_CAUSE = 'dynamic_params_depth not zero at a query boundary'
+BLOCKED_CAUSE = ('recursion guard blocked a re-entered dynamic parameter lookup and the empty default was '
+                 'memoised; dynamic_params_depth zero at every query boundary')
+NESTED_CAUSE = ('call-site search memoised at nested depth (fewer call sites); dynamic_params_depth zero at '
+                'every query boundary')
+
+
+def dyn_cause(boundary_bad, depths, blocked=0):
+    """why answers that involve the dynamic parameter search can differ between histories"""
+    if any('dynamic_params_depth' in b for b in boundary_bad):
+        return LEAK_CAUSE
+    if blocked:
+        return BLOCKED_CAUSE
+    if any(d >= 2 for d in depths):
+        return NESTED_CAUSE
+    return 'no dynamic parameter lookup nested or blocked'
+
+
+def same_answer(ctx, stream, key, a, b):
+    """Are two answers of the same query the same result?  When BOTH are internal exceptions of jedi
+    (in this sandbox mostly artefacts of the missing typeshed: ValueError in function.py:py__class__,
+    RecursionError) the query has no result on either side; which exception it is, is C01's
+    statement (totality), so that is counted, not judged."""
+    if a == b:
+        return True
+    if a[0] == 'raised' and b[0] == 'raised':
+        ctx.count('raised', (stream, key), nontrivial=False, bucket='both-internal-exceptions-differ:%s' % stream)
+        return True
+    return False
 
 
 # ----------------------------------------------------------------- stream: sort
@@ -181,19 +329,73 @@ class Boom(Exception):
     pass
 
 
-def gen_act(rng, depth=0):
+def gen_act(rng, depth=0, dyn=False):
     r = rng.random()
     if depth > 3 or r < 0.35:
-        return rng.choice(['skip', 'execute', ['capped', rng.randrange(3)], ['capped', 0], 'raise', 'skip'])
-    if r < 0.65:
-        return ['seq', gen_act(rng, depth + 1), gen_act(rng, depth + 1)]
-    return [rng.choice(['predefine', 'dynDepth']), gen_act(rng, depth + 1)]
+        leaf = ['skip', 'execute', ['capped', rng.randrange(3)], ['capped', 0], 'raise', 'skip']
+        if dyn:
+            # inside a dynamic parameter lookup: the call-site search is what observes the counter
+            leaf += [['searchArgs', rng.choice([1, 6, 7, 10, 11, 12, 20, 21, 25])]] * 4
+        return rng.choice(leaf)
+    if r < 0.6:
+        return ['seq', gen_act(rng, depth + 1, dyn), gen_act(rng, depth + 1, dyn)]
+    if r < 0.75:
+        return ['predefine', gen_act(rng, depth + 1, dyn)]
+    # a dynamic parameter lookup of one of three functions: nesting the same one is a recursion that
+    # the guard blocks
+    return ['dynParam', rng.randrange(3), gen_act(rng, depth + 1, True)]
+
+
+class FakeModuleContext:
+    def __init__(self, st):
+        self.inference_state = st
+
+    def create_context(self, name):
+        return self
+
+
+class SearchFakes:
+    """lets the real dynamic_params._search_function_arguments run on synthetic call sites: the
+    three helpers that need a syntax tree are replaced, the loop with the cut-off is the real one"""
+    NAMES = ['_get_potential_nodes', '_check_name_for_execution', 'get_module_contexts_containing_name']
+
+    def __enter__(self):
+        import ast
+        from jedi.inference import dynamic_params
+        self.mod = dynamic_params
+        self.old = [getattr(dynamic_params, n) for n in self.NAMES]
+        dynamic_params._get_potential_nodes = \
+            lambda module_value, string_name: iter([(('site', k), None) for k in range(self.sites)])
+        dynamic_params._check_name_for_execution = \
+            lambda inference_state, context, compare_node, name, trailer: iter([name])
+        dynamic_params.get_module_contexts_containing_name = \
+            lambda inference_state, module_contexts, name, limit_reduction=1: module_contexts
+        # with proposed_fixes/c16-dynamic-params-depth-in-memo-key.diff the depth is a 4th argument
+        with open(dynamic_params.__file__, encoding='utf-8') as f:
+            tree = ast.parse(f.read())
+        fn = [n for n in tree.body if isinstance(n, ast.FunctionDef) and n.name == '_search_function_arguments'][0]
+        self.with_depth = len(fn.args.args) == 4
+        return self
+
+    def search(self, st, sites):
+        self.sites = sites
+        self.n = getattr(self, 'n', 0) + 1
+        funcdef = C15.FakeFuncdef(5000 + self.n)
+        args = (FakeModuleContext(st), funcdef, 'some_function')
+        if self.with_depth:
+            args += (st.dynamic_params_depth,)
+        return len(self.mod._search_function_arguments(*args))
+
+    def __exit__(self, *a):
+        for n, v in zip(self.NAMES, self.old):
+            setattr(self.mod, n, v)
 
 
 def run_machine_impl(queries, cap_unused=None):
     """executes the query bodies with the real primitives on one fake InferenceState"""
     from jedi.inference import InferenceState, syntax_tree, dynamic_params
     from jedi.inference.context import AbstractContext
+    from jedi.inference.base_value import NO_VALUES
     st = C15.FakeState()
     st.dynamic_params_depth = 0
     st.flow_analysis_enabled = True
@@ -201,11 +403,12 @@ def run_machine_impl(queries, cap_unused=None):
     holder = type('Ctx', (), {})()
     holder.predefined_names = {}
     nodes = {}
+    dyn_nodes = {}
     marker = object()
     capped = syntax_tree._limit_value_infers(lambda context: marker)
-    fvals = {}
+    boundary = []
 
-    def run(act, seen, uid=[0]):
+    def run(act, seen, fakes, uid=[0]):
         if act == 'skip' or act == 'memoise':
             return
         if act == 'raise':
@@ -217,8 +420,8 @@ def run_machine_impl(queries, cap_unused=None):
             return
         kind = act[0]
         if kind == 'seq':
-            run(act[1], seen)
-            run(act[2], seen)
+            run(act[1], seen, fakes)
+            run(act[2], seen, fakes)
         elif kind == 'capped':
             node = nodes.setdefault(act[1], C15.FakeFuncdef(act[1]))
             c = C15.FakeContext(st, node, False)
@@ -226,47 +429,77 @@ def run_machine_impl(queries, cap_unused=None):
         elif kind == 'predefine':
             uid[0] += 1
             with AbstractContext.predefine_names(holder, ('scope', uid[0]), {}):
-                run(act[1], seen)
-        elif kind == 'dynDepth':
-            uid[0] += 1
+                run(act[1], seen, fakes)
+        elif kind == 'dynParam':
             fv = type('FV', (), {})()
             fv.inference_state = st
-            fv.tree_node = C15.FakeFuncdef(1000 + uid[0])
-            dynamic_params._avoid_recursions(lambda function_value, param_index: run(act[1], seen))(fv, 0)
+            fv.tree_node = dyn_nodes.setdefault(act[1], C15.FakeFuncdef(1000 + act[1]))
+            entered = []
+
+            def lookup(function_value, param_index):
+                entered.append(True)
+                seen.append(True)
+                run(act[2], seen, fakes)
+                return marker
+            r = dynamic_params._avoid_recursions(lookup)(fv, 0)
+            if not entered:
+                seen.append(False)
+                if r is not NO_VALUES:
+                    raise common.InfraError('blocked _avoid_recursions did not return NO_VALUES')
+        elif kind == 'searchArgs':
+            k = fakes.search(st, act[1])
+            seen.extend([True] * k + ([False] if k < act[1] else []))
+        else:
+            raise common.InfraError('unknown act %r' % (act,))
     out = []
-    for q in queries:
-        InferenceState.reset_recursion_limitations(st)
-        fresh = (st.execution_recursion_detector._execution_count == 0
-                 and st.recursion_detector.pushed_nodes == [])
-        seen = []
-        raised = False
-        try:
-            run(q, seen)
-        except Boom:
-            raised = True
-        out.append([raised, seen, fresh])
+    with SearchFakes() as fakes:
+        for q in queries:
+            InferenceState.reset_recursion_limitations(st)
+            fresh = (st.execution_recursion_detector._execution_count == 0
+                     and st.recursion_detector.pushed_nodes == [])
+            seen = []
+            raised = False
+            try:
+                run(q, seen, fakes)
+            except Boom:
+                raised = True
+            out.append([raised, seen, fresh])
+            boundary.append(st.dynamic_params_depth)
     return {'flow': st.flow_analysis_enabled, 'analysis': st.is_analysis,
             'predefined': len(holder.predefined_names), 'dyn': st.dynamic_params_depth,
-            'queries': [[r, s] for r, s, f in out]}, all(f for r, s, f in out), st
+            'pushed': len(st.recursion_detector.pushed_nodes),
+            'queries': [[r, s] for r, s, f in out]}, all(f for r, s, f in out), st, boundary
 
 
 def stream_machine(ctx, reqs, cap, factor):
     rng = ctx.subrng('machine')
     cases = []
+    fixed = [
+        # a lookup that re-enters itself (blocked), then a search over 12 call sites in the next query
+        [['dynParam', 0, ['dynParam', 0, 'skip']], ['dynParam', 1, ['searchArgs', 12]]],
+        [['dynParam', 0, ['seq', ['dynParam', 0, 'skip'], 'raise']], ['dynParam', 1, ['searchArgs', 21]]],
+        [['dynParam', 0, ['dynParam', 1, ['dynParam', 0, ['searchArgs', 25]]]], ['dynParam', 0, ['searchArgs', 25]]],
+        [['dynParam', 2, ['dynParam', 1, ['searchArgs', 11]]], ['searchArgs', 30]],
+    ]
     for i in range(ctx.size(400, 6000)):
-        nq = rng.randint(1, 8)
-        queries = [gen_act(rng) for _ in range(nq)]
-        if rng.random() < 0.05:
-            queries = [['capped', 0]] * (cap + 2)
-        impl, fresh, st = run_machine_impl(queries)
+        if i < len(fixed):
+            queries = fixed[i]
+        else:
+            nq = rng.randint(1, 8)
+            queries = [gen_act(rng) for _ in range(nq)]
+            if rng.random() < 0.05:
+                queries = [['capped', 0]] * (cap + 2)
+        impl, fresh, st, boundary = run_machine_impl(queries)
         case = {'queries': queries if len(queries) <= 8 else 'capped0 x %d' % len(queries)}
         # direct oracle of query_boundary_inv on the real object
         if not fresh:
             ctx.fail('machine', 'a query body did not start with fresh recursion bookkeeping', case, observed=impl)
         if not (impl['flow'] is True and impl['analysis'] is False and impl['predefined'] == 0 and impl['dyn'] == 0
-                and st.recursion_detector.pushed_nodes == []):
-            ctx.fail('machine', 'a switch is not back at its default after the queries', case,
-                     expected={'flow': True, 'analysis': False, 'predefined': 0, 'dyn': 0}, observed=impl)
+                and st.recursion_detector.pushed_nodes == [] and not any(boundary)):
+            # the mechanism (theorem query_boundary_inv) fails on the real primitives; whether the
+            # property fails on a real query is decided by the session streams
+            ctx.tie_broken('state:query_boundary_inv (machine)',
+                           short({'case': case, 'state': impl, 'dynamic_params_depth after each query': boundary}, 1200))
         cases.append((('machine', case), impl))
         reqs.append({'op': 'session', 'cap': cap, 'factor': factor, 'queries': queries})
     return cases
@@ -403,7 +636,7 @@ def stream_order(ctx):
                     nmax = max([nmax] + fo.sizes)
                     if base is None:
                         base = ans
-                    elif ans != base:
+                    elif not same_answer(ctx, 'order', (src, q, line, col), base, ans):
                         case = {'label': label, 'source': src, 'query': q, 'line': line, 'column': col}
                         ctx.fail('order', 'result depends on the iteration order of the value set: '
                                  + classify(base, ans), case, expected=base,
@@ -422,6 +655,8 @@ junk2 = [[i] * (i % 7) for i in range(noise % 1000)]
 sys.path.insert(0, sys.argv[2]); sys.path.insert(0, sys.argv[3]); sys.path.insert(0, sys.argv[4])
 from props import c16
 import jedi
+import jedi.settings
+jedi.settings.cache_directory = sys.argv[5]      # private to this process, see c16.PrivateCache
 cases = json.load(sys.stdin)
 out = []
 for src, q, line, col in cases:
@@ -430,10 +665,17 @@ json.dump(out, sys.stdout)
 '''
 
 
-def stream_subproc(ctx):
+def stream_subproc(ctx, pcache):
     rng = ctx.subrng('subproc')
     progs = programs(ctx, rng, ctx.size(10, 150))
     cases = []
+    dyn = [(label, src, queries) for label, src, queries, meta in DP.fixed_programs()]
+    for i in range(ctx.size(3, 40)):
+        src, queries, meta = DP.gen_program(rng)
+        dyn.append(('dyn-%d' % i, src, queries))
+    for label, src, queries in dyn:
+        for (kind, fn, l, c) in queries:
+            cases.append((src, 'infer', l, c))
     for label, src, positions in progs:
         if len(positions) > 2:
             positions = rng.sample(positions, 2 if ctx.quick else min(len(positions), 6))
@@ -447,7 +689,8 @@ def stream_subproc(ctx):
         env = dict(os.environ)
         env['PYTHONHASHSEED'] = hs
         p = subprocess.Popen([sys.executable, '-c', CHILD, str(noise), common.REPO,
-                              os.path.join(common.VERIF, 'harness'), common.VERIF],
+                              os.path.join(common.VERIF, 'harness'), common.VERIF,
+                              pcache.child_dir('%s-%d' % (hs, noise))],
                              stdin=subprocess.PIPE, stdout=subprocess.PIPE, stderr=subprocess.PIPE,
                              env=env, text=True)
         procs.append((hs, noise, p))
@@ -457,7 +700,11 @@ def stream_subproc(ctx):
     outs = {}
 
     def comm(key, p):
-        outs[key] = p.communicate(data, timeout=ctx.size(240, 1500))
+        try:
+            outs[key] = p.communicate(data, timeout=ctx.size(400, 2400))
+        except subprocess.TimeoutExpired:
+            p.kill()
+            outs[key] = ('', 'timeout (machine under load?)\n' + p.communicate()[1])
     ths = [threading.Thread(target=comm, args=((hs, noise), p)) for hs, noise, p in procs]
     for t in ths:
         t.start()
@@ -468,6 +715,8 @@ def stream_subproc(ctx):
         if p.returncode != 0:
             raise common.InfraError('subprocess PYTHONHASHSEED=%s failed: %s' % (hs, e[-1500:]))
         results.append(json.loads(o))
+        if len(results[-1]) != len(cases):
+            raise common.InfraError('subprocess PYTHONHASHSEED=%s answered %d of %d cases' % (hs, len(results[-1]), len(cases)))
     how = ('PYTHONHASHSEED=<seed> python -c "<allocate noise objects>; jedi.Script(source).<query>(line, column)" '
            'in fresh processes; see harness/props/c16.py:CHILD')
     for i, (src, q, line, col) in enumerate(cases):
@@ -476,7 +725,7 @@ def stream_subproc(ctx):
                   bucket='%s/%s' % (q, base[0]),
                   sample={'query': q, 'line': line, 'column': col, 'answer': base, 'source': src[:300]})
         for (hs, noise), r in zip([(a, b) for a, b, _ in procs], results):
-            if r[i] != base:
+            if not same_answer(ctx, 'subproc', (src, q, line, col), base, r[i]):
                 ctx.fail('subproc', 'result differs between processes: ' + classify(base, r[i]),
                          {'source': src, 'query': q, 'line': line, 'column': col},
                          expected=base, observed={'difference': classify(base, r[i]), 'PYTHONHASHSEED': hs,
@@ -503,16 +752,108 @@ def state_defaults(script):
     return bad
 
 
-def stream_session(ctx, cap):
+def ask(script, qq):
+    """one query; used and fresh Scripts are asked through this same frame so that both run at the
+    same interpreter stack depth (a RecursionError must not depend on who asks)"""
+    return run_query(script, *qq)
+
+
+class Fresh:
+    """answers of fresh Scripts, one Script per query"""
+    def __init__(self, src):
+        self.src = src
+        self.ans = {}
+        self.depths = {}
+        self.blocked = {}
+
+    def __call__(self, qq):
+        if qq not in self.ans:
+            import jedi
+            script = jedi.Script(self.src)
+            self.ans[qq] = ask(script, qq)
+            self.depths[qq] = SearchHook.depths(script)
+            self.blocked[qq] = SearchHook.blocked(script)
+        return self.ans[qq]
+
+
+SESSION_HOW = ('s = jedi.Script(source); answers = [s.<query>(line, column) for each query of `session` in order]; '
+               'compare the answer at index `at` with jedi.Script(source).<query>(line, column) on a fresh Script')
+
+
+def run_sessions(ctx, stream, label, src, sessions, fresh, probes, cap, probed, extra_case=None):
+    """the direct oracle of the second sentence of C16: every answer given in a session on one Script
+    equals the answer of a fresh Script; after every query the per-query state of the real
+    InferenceState is checked (the mechanism query_boundary_inv is about)"""
     import jedi
+    for sess in sessions:
+        script = jedi.Script(src)
+        internal = False
+        boundary_bad = []
+        for at, qq in enumerate(sess):
+            ans = ask(script, qq)
+            exp = fresh(qq)
+            internal = internal or ans[0] == 'raised' or exp[0] == 'raised'
+            case = {'label': label, 'source': src, 'session': [list(x) for x in sess], 'at': at,
+                    'query': qq[0], 'line': qq[1], 'column': qq[2]}
+            case.update(extra_case or {})
+            bad = state_defaults(script)
+            boundary_bad += bad
+            if bad:
+                # the mechanism the theorem query_boundary_inv is about no longer holds on the real
+                # object; whether the *property* fails is decided by the answers compared below
+                ctx.tie_broken('state:query_boundary_inv (%s)' % stream,
+                               short({'label': label, 'session': [list(x) for x in sess], 'at': at, 'state': bad}, 800))
+                # failing-input search: ask every probe right now and compare with a fresh Script
+                if (label, tuple(bad)) not in probed:
+                    probed.add((label, tuple(bad)))
+                    prefix = [list(x) for x in sess[:at + 1]]
+                    for pq in probes:
+                        s2 = jedi.Script(src)
+                        for qq2 in sess[:at + 1]:
+                            ask(s2, qq2)
+                        a = ask(s2, pq)
+                        f = fresh(pq)
+                        if not same_answer(ctx, stream, (label, pq), a, f) and a[0] == 'ok' and f[0] == 'ok':
+                            c2 = {'label': label, 'source': src, 'session': prefix + [list(pq)], 'at': at + 1,
+                                  'query': pq[0], 'line': pq[1], 'column': pq[2]}
+                            c2.update(extra_case or {})
+                            ctx.fail(stream, 'answer on a used Script differs from the answer of a fresh '
+                                     'Script: ' + classify(f, a), c2, expected=f,
+                                     observed={'difference': classify(f, a), 'answer': a, 'state': bad,
+                                               'cap_state': 'n/a', 'history': 'state-leak',
+                                               'cause': dyn_cause(bad, [])}, how=SESSION_HOW)
+            nlines = src.count('\n') + 1
+            if qq[1] > nlines or qq[1] < 1 or qq[2] > 400:
+                if ans[0] != 'ValueError':
+                    # C01's statement; only counted here
+                    ctx.count('raised', (label, qq), nontrivial=False, bucket='out-of-range:%s' % ans[0])
+            if not same_answer(ctx, stream, (label, tuple(sess), at), ans, exp):
+                counts = script._inference_state.inferred_element_counts
+                worst = max(counts.values() or [0])
+                depths = SearchHook.depths(script) + fresh.depths.get(qq, [])
+                blocked = SearchHook.blocked(script) + fresh.blocked.get(qq, 0)
+                obs = {'difference': classify(exp, ans), 'answer': ans,
+                       'inferred_element_counts_max': worst,
+                       'cap_state': 'inferred_element_counts>cap' if worst > cap else 'below-cap',
+                       'history': 'after-internal-exception' if internal else 'no-internal-exception',
+                       'cause': dyn_cause(boundary_bad, depths, blocked),
+                       'search_depths_max': max(depths or [0]), 'blocked_lookups': blocked,
+                       'boundary_state': sorted(set(boundary_bad))}
+                ctx.fail(stream, 'answer on a used Script differs from the answer of a fresh Script: '
+                         + classify(exp, ans), case, expected=exp, observed=obs, how=SESSION_HOW)
+        ctx.count(stream, (src, tuple(sess)), nontrivial=len(set(sess)) > 1,
+                  bucket='len=%d' % len(sess) if stream == 'session' else
+                  'len=%d/searches=%d' % (min(len(sess), 5), min(len(SearchHook.depths(script)), 4)),
+                  sample={'label': label, 'session': [list(x) for x in sess][:8]})
+
+
+def stream_session(ctx, cap):
     rng = ctx.subrng('session')
     progs = programs(ctx, rng, ctx.size(12, 200))
     hsrc, huses = heavy_program()
     progs.append(('heavy-chains', hsrc, huses))
     esrc, euses = exec_heavy_program()
     progs.append(('exec-heavy', esrc, euses))
-    how = ('s = jedi.Script(source); answers = [s.<query>(line, column) for each query of `session` in order]; '
-           'compare the answer at index `at` with jedi.Script(source).<query>(line, column) on a fresh Script')
     probed = set()
     for label, src, positions in progs:
         nlines = src.count('\n') + 1
@@ -525,12 +866,7 @@ def stream_session(ctx, cap):
                     pool.append((q, line, col))
             # failing queries: out-of-range positions must raise ValueError and leave no trace
             pool += [('infer', nlines + 3, 0), ('goto', 1, 500), ('complete', 0, 0), ('get_references', nlines, 999)]
-        fresh = {}
-
-        def fresh_answer(qq):
-            if qq not in fresh:
-                fresh[qq] = run_query(jedi.Script(src), *qq)
-            return fresh[qq]
+        fresh = Fresh(src)
         sessions = []
         if label in ('heavy-chains', 'exec-heavy'):
             sessions = [list(pool), list(reversed(pool))]
@@ -541,55 +877,50 @@ def stream_session(ctx, cap):
             for _ in range(ctx.size(2, 6)):
                 k = rng.randint(2, 8)
                 sessions.append([rng.choice(distinct) for _ in range(k)])
-        for sess in sessions:
-            script = jedi.Script(src)
-            internal = False
-            for at, qq in enumerate(sess):
-                ans = run_query(script, *qq)
-                exp = fresh_answer(qq)
-                internal = internal or ans[0] == 'raised' or exp[0] == 'raised'
-                case = {'label': label, 'source': src, 'session': [list(x) for x in sess], 'at': at,
-                        'query': qq[0], 'line': qq[1], 'column': qq[2]}
-                bad = state_defaults(script)
-                if bad:
-                    # the mechanism the theorem query_boundary_inv is about no longer holds on the real
-                    # object; whether the *property* fails is decided by the answers compared below
-                    ctx.tie_broken('state:query_boundary_inv (session)',
-                                   short({'label': label, 'session': [list(x) for x in sess], 'at': at, 'state': bad}, 800))
-                    # failing-input search: ask every position right now and compare with a fresh Script
-                    if (label, tuple(bad)) not in probed:
-                        probed.add((label, tuple(bad)))
-                        prefix = [list(x) for x in sess[:at + 1]]
-                        for (l2, c2) in positions[:12]:
-                            for q2 in ('infer', 'goto'):
-                                s2 = jedi.Script(src)
-                                for qq2 in sess[:at + 1]:
-                                    run_query(s2, *qq2)
-                                a = run_query(s2, q2, l2, c2)
-                                f = fresh_answer((q2, l2, c2))
-                                if a != f and a[0] == 'ok' and f[0] == 'ok':
-                                    ctx.fail('session', 'answer on a used Script differs from the answer of a fresh '
-                                             'Script: ' + classify(f, a),
-                                             {'label': label, 'source': src, 'session': prefix + [[q2, l2, c2]],
-                                              'at': at + 1}, expected=f,
-                                             observed={'difference': classify(f, a), 'answer': a, 'state': bad,
-                                                       'cap_state': 'n/a', 'history': 'state-leak'}, how=how)
-                if qq[1] > nlines or qq[1] < 1 or qq[2] > 400:
-                    if ans[0] != 'ValueError':
-                        # C01's statement; only counted here
-                        ctx.count('raised', (label, qq), nontrivial=False, bucket='out-of-range:%s' % ans[0])
-                if ans != exp:
-                    counts = script._inference_state.inferred_element_counts
-                    worst = max(counts.values() or [0])
-                    obs = {'difference': classify(exp, ans), 'answer': ans,
-                           'inferred_element_counts_max': worst,
-                           'cap_state': 'inferred_element_counts>cap' if worst > cap else 'below-cap',
-                           'history': 'after-internal-exception' if internal else 'no-internal-exception'}
-                    ctx.fail('session', 'answer on a used Script differs from the answer of a fresh Script: '
-                             + classify(exp, ans), case, expected=exp, observed=obs, how=how)
-            ctx.count('session', (src, tuple(sess)), nontrivial=len(set(sess)) > 1,
-                      bucket='len=%d' % len(sess),
-                      sample={'label': label, 'session': [list(x) for x in sess][:8]})
+        probes = [(q2, l2, c2) for (l2, c2) in positions[:12] for q2 in ('infer', 'goto')]
+        run_sessions(ctx, 'session', label, src, sessions, fresh, probes, cap, probed)
+
+
+def stream_dynsession(ctx, cap):
+    """sessions on programs whose answers come from the dynamic parameter search: functions with more
+    than 10 call sites with distinct argument classes, self- and mutually recursive functions, helper
+    calls; queries on the parameters, asked in every order of every pair and in random longer
+    sessions with repetitions"""
+    rng = ctx.subrng('dynsession')
+    probed = set()
+    # corpus first: minimised past alarms / the shapes of known defects
+    for path in sorted(Path(common.CORPUS_DIR, 'C16').glob('*.json')):
+        with open(path, encoding='utf-8') as f:
+            c = json.load(f)
+        sessions = [[tuple(q) for q in sess] for sess in c['sessions']]
+        probes = sorted({q for sess in sessions for q in sess})
+        run_sessions(ctx, 'dynsession', c['label'], c['source'], sessions, Fresh(c['source']), probes, cap, probed,
+                     extra_case={'has_nested_helper_call': 'nested' in c['label']})
+    progs = [(label, src, queries, meta) for label, src, queries, meta in DP.fixed_programs()]
+    for i in range(ctx.size(8, 120)):
+        src, queries, meta = DP.gen_program(rng)
+        progs.append(('dyn-%d' % i, src, queries, meta))
+    for label, src, queries, meta in progs:
+        params = [('infer', l, c) for (kind, fn, l, c) in queries]
+        pool = list(params)
+        for (kind, fn, l, c) in queries:
+            pool.append((rng.choice(['help', 'goto', 'get_references', 'complete']), l, c))
+        nlines = src.count('\n') + 1
+        pool.append(('infer', nlines + 2, 0))      # ValueError in between must leave no trace
+        fresh = Fresh(src)
+        pairs = [[a, b] for a in params for b in params if a != b]
+        if ctx.quick and len(pairs) > 12:
+            pairs = rng.sample(pairs, 12)
+        sessions = pairs
+        for _ in range(ctx.size(3, 10)):
+            k = rng.randint(3, 8)
+            sessions.append([rng.choice(pool) for _ in range(k)])
+        # a query asked after every other parameter was asked (and asked again)
+        sessions.append(list(params) + list(params))
+        sessions.append(list(reversed(params)))
+        nested = any(f['kind'] == 'nested' for f in meta['functions'])
+        run_sessions(ctx, 'dynsession', label, src, sessions, fresh, params, cap, probed,
+                     extra_case={'has_nested_helper_call': nested})
 
 
 # ----------------------------------------------------------------- stream: fault
@@ -601,12 +932,15 @@ class Injected(BaseException):
 def stream_fault(ctx):
     import jedi
     rng = ctx.subrng('fault')
-    progs = programs(ctx, rng, ctx.size(6, 80))
-    for label, src, positions in progs:
+    progs = [(label, src, positions, None) for label, src, positions in programs(ctx, rng, ctx.size(6, 80))]
+    # exceptions in the middle of a dynamic parameter lookup
+    dyn = DP.fixed_programs() + [('dyn-%d' % i,) + DP.gen_program(rng) for i in range(ctx.size(2, 30))]
+    progs += [(label, src, [(l, c) for (k, f, l, c) in queries], 'infer') for label, src, queries, meta in dyn]
+    for label, src, positions, only in progs:
         if not positions:
             continue
         line, col = rng.choice(positions)
-        q = rng.choice(['infer', 'goto', 'get_references', 'complete'])
+        q = only or rng.choice(['infer', 'goto', 'get_references', 'complete'])
         with C15.InferCounter() as counter:
             script = jedi.Script(src)
             k0, v0, _ = C15.guarded(lambda: run_query(jedi.Script(src), q, line, col), 30)
@@ -653,12 +987,13 @@ def stream_fault(ctx):
                     for q2 in ('infer', 'goto'):
                         a = run_query(script, q2, l2, c2)
                         f = run_query(jedi.Script(src), q2, l2, c2)
-                        if a != f and a[0] == 'ok' and f[0] == 'ok':
+                        if not same_answer(ctx, 'fault', (src, q2, l2, c2), f, a) and a[0] == 'ok' and f[0] == 'ok':
                             ctx.fail('fault', 'after a query that raised, the same Script answers differently: '
                                      + classify(f, a),
                                      {'label': label, 'source': src, 'failed_query': [q, line, col],
                                       'raise_at_step': k, 'query': q2, 'line': l2, 'column': c2},
-                                     expected=f, observed={'answer': a, 'state': bad},
+                                     expected=f, observed={'difference': classify(f, a), 'answer': a, 'state': bad,
+                                                           'cause': dyn_cause(bad, [])},
                                      how='raise at the k-th entry of the _infer_node/infer_expr_stmt body '
                                          '(closure cell hook) during failed_query, then ask query')
 
@@ -702,15 +1037,29 @@ def run(ctx):
     reqs = []
     cases = []
     cap, factor = source_cap()
-    cases += stream_sort(ctx, reqs)
-    cases += stream_machine(ctx, reqs, cap, factor)
-    stream_order(ctx)
-    stream_session(ctx, cap)
-    try:
-        stream_fault(ctx)
-    except common.TieBroken as e:
-        ctx.tie_broken('hook:' + e.what, e.detail)
-    stream_subproc(ctx)
+    import time
+    walls = []
+
+    def timed(name, fn, *a):
+        t0 = time.time()
+        try:
+            return fn(*a)
+        finally:
+            walls.append('%s=%.1fs' % (name, time.time() - t0))
+    cases += timed('sort', stream_sort, ctx, reqs)
+    cases += timed('machine', stream_machine, ctx, reqs, cap, factor)
+    with PrivateCache() as pcache, SearchHook():
+        timed('order', stream_order, ctx)
+        timed('session', stream_session, ctx, cap)
+        timed('dynsession', stream_dynsession, ctx, cap)
+        try:
+            timed('fault', stream_fault, ctx)
+        except common.TieBroken as e:
+            ctx.tie_broken('hook:' + e.what, e.detail)
+        timed('subproc', stream_subproc, ctx, pcache)
+    ctx.notes.append('wall per stream: ' + ' '.join(walls))
+    ctx.notes.append('string hash randomisation of this (parent) process: %s; the subprocesses of stream subproc run under '
+                     'fixed PYTHONHASHSEED values' % ('on' if sys.flags.hash_randomization else 'off'))
     if ctx.model_ok:
         answers = common.run_driver_parallel('C16', reqs)
         compare(ctx, cases, answers)
@@ -724,6 +1073,9 @@ def run(ctx):
         'session compares every answer on a used Script with a fresh Script',
         'well-formedness of names (1-based lines, non-empty path strings) is assumed by key_injective; stream '
         'sort generates only such names, the e2e streams would show a violation as an order difference',
+        'memoised results of the dynamic parameter search are not modelled (two known findings: recursion default '
+        'memoised, search truncated at nested depth); the model covers the depth counter and the recursion guard, '
+        'stream dynsession compares real answers',
         'flow_analysis_enabled / is_analysis blocks are inline try/finally statements (no callable primitive): '
         'checked by fault injection on real queries (stream fault), not by the machine correspondence',
     ]
@@ -733,11 +1085,19 @@ def replay(ctx, payload):
     import jedi
     inp = payload['input']
     if 'session' in inp:
-        s = jedi.Script(inp['source'])
-        for i, qq in enumerate(inp['session']):
-            a = run_query(s, *qq)
-            f = run_query(jedi.Script(inp['source']), *qq)
-            print(i, qq, 'used:', a, 'fresh:', f, '' if a == f else '   <-- differs')
+        with PrivateCache(), SearchHook():
+            s = jedi.Script(inp['source'])
+            ndiff = 0
+            for i, qq in enumerate(inp['session']):
+                a = ask(s, tuple(qq))
+                f = ask(jedi.Script(inp['source']), tuple(qq))
+                n = lambda r: '%d results' % len(r[1]) if r[0] == 'ok' else r[0]
+                print(i, qq, 'used Script:', n(a), short(a, 300), '| fresh Script:', n(f), short(f, 300),
+                      '' if a == f else '   <-- DIFFERS (%s)' % classify(f, a))
+                print('   state after the query:', state_defaults(s) or 'defaults',
+                      '| dynamic searches so far at depths', SearchHook.depths(s), '| blocked lookups', SearchHook.blocked(s))
+                ndiff += a != f
+            print('%d of %d answers differ from the answer of a fresh Script' % (ndiff, len(inp['session'])))
     elif 'query' in inp:
         for name, pick in (('sorted', lambda r: sorted(r, key=stable_key)),
                            ('reversed', lambda r: sorted(r, key=stable_key)[::-1])):
